@@ -201,7 +201,7 @@ def _mk():
     add("ptp0", "{m}.ptp({0}, axis=0)", cond=D1 + " and " + Z, fam="red")
     add("topk2", "{m}.topk({0}, 2)", "uf.np_topk({0}, 2)", cond="a0.ndim>=1 and a0.shape[-1]>=2", fam="red")
     add("topkm2_0", "{m}.topk({0}, -2, axis=0)", "uf.np_topk({0}, -2, axis=0)", cond="a0.ndim>=1 and a0.shape[0]>=2", fam="red")
-    add("moment3", "{m}.moment({0}, 3, axis=0)", "uf.np_moment({0}, 3, axis=0)", exact=False, cond=D1 + " and " + Z, fam="red", rewrite=False)
+    add("moment3", "{m}.moment({0}, 3, axis=0)", "uf.np_moment({0}, 3, axis=0)", exact=False, cond=D1 + " and " + Z + " and a0.dtype.kind!='c'", fam="red", rewrite=False)
 
     # ---- scans
     add("cumsum0", "{m}.cumsum({0}, axis=0)", exact=False, cond=D1, fam="scan")
